@@ -19,6 +19,16 @@ Theorem C11_nonempty : forall r, nonempty r = true <-> exists w, matches r w.
 Proof. exact nonempty_spec. Qed.
 Print Assumptions C11_nonempty.
 
+(* lifted to whole words: the state reached by taking derivatives symbol by symbol decides, for every expression and
+   every word, whether the word is a sentence and whether it can still be extended to one *)
+Theorem C11_membership_decided : forall r w, nullable (derivs w r) = true <-> matches r w.
+Proof. exact derivs_matches. Qed.
+Print Assumptions C11_membership_decided.
+
+Theorem C11_viability_decided : forall r w, nonempty (derivs w r) = true <-> viable r w.
+Proof. exact derivs_viable. Qed.
+Print Assumptions C11_viability_decided.
+
 (* the run: for every expression and every input,
      - the input is split into the consumed (stored) prefix p and the untouched rest;
      - every non-empty prefix of p, p included, can still be extended to a sentence;
